@@ -417,6 +417,24 @@ impl<'a> Label<'a> {
     }
 }
 
+#[cfg(simple_dns_verif)]
+impl<'a> Label<'a> {
+    /// Verification hook: raw bytes of this label
+    pub fn verif_bytes(&self) -> &[u8] {
+        &self.data
+    }
+}
+
+#[cfg(simple_dns_verif)]
+impl<'a> Name<'a> {
+    /// Verification hook: decode one name at `offset` of `data`, returning it with the new cursor
+    pub fn verif_parse_at(data: &'a [u8], offset: usize) -> crate::Result<(Name<'a>, usize)> {
+        let mut position = offset;
+        let name = <Name as WireFormat>::parse(data, &mut position)?;
+        Ok((name, position))
+    }
+}
+
 impl<'a> Display for Label<'a> {
     fn fmt(&self, f: &mut std::fmt::Formatter<'_>) -> std::fmt::Result {
         match std::str::from_utf8(&self.data) {
